@@ -220,7 +220,8 @@ fn reference(prog: &[Line], on_error: OnError, tape: &Tape, source: Option<&str>
                             oe => {
                                 calls.push(Call {
                                     cmd: "on_error",
-                                    args: vec![msg.to_string(), (pc + 1).to_string(), source.unwrap_or("").to_string()],
+                                    // the handler runs after 'false' was stored: what it finds in x is recorded too
+                                    args: vec![msg.to_string(), (pc + 1).to_string(), source.unwrap_or("").to_string(), format!("x={:?}", vars.get("x"))],
                                     line: 0,
                                 });
                                 match oe {
@@ -273,11 +274,9 @@ impl Rig {
                             } else {
                                 let calls = calls.clone();
                                 let _ = c.commands.set(fn_command("on_error", move |c| {
-                                    calls.borrow_mut().push(Call {
-                                        cmd: "on_error",
-                                        args: c.arguments.clone(),
-                                        line: c.line,
-                                    });
+                                    let mut args = c.arguments.clone();
+                                    args.push(format!("x={:?}", c.variables.get("x")));
+                                    calls.borrow_mut().push(Call { cmd: "on_error", args, line: c.line });
                                     CommandResult::Continue(Some("ignored".to_string()))
                                 }));
                             }
@@ -313,11 +312,9 @@ impl Rig {
             let calls = calls.clone();
             commands
                 .set(fn_command("on_error", move |c| {
-                    calls.borrow_mut().push(Call {
-                        cmd: "on_error",
-                        args: c.arguments.clone(),
-                        line: c.line,
-                    });
+                    let mut args = c.arguments.clone();
+                    args.push(format!("x={:?}", c.variables.get("x")));
+                    calls.borrow_mut().push(Call { cmd: "on_error", args, line: c.line });
                     match on_error {
                         OnError::Exit => CommandResult::Exit(None),
                         OnError::Crash => CommandResult::Crash("handler crashed".to_string()),
@@ -350,7 +347,7 @@ impl Rig {
         let q = self.tape.borrow().queried();
         let mut calls = self.calls.borrow().clone();
         for c in calls.iter_mut() {
-            if c.cmd == "on_error" && c.args.len() == 3 && !c.args[2].is_empty() {
+            if c.cmd == "on_error" && c.args.len() == 4 && !c.args[2].is_empty() {
                 c.args[2] = canon(c.args[2].clone());
             }
         }
@@ -648,7 +645,7 @@ pub fn crash_sig(_case: &Value, kind: &str) -> String {
     kind.to_string()
 }
 
-pub const RULE: &str = "programs: every sequence of 1..n lines over 14 line forms (`x =` and `:a x =`, and label none/:a/:b x {no command, `k p ${x}`, `x = k p ${x}`, unknown command `nope p`}), duplicates of labels included; configurations: on_error command absent / continuing / exiting / crashing, script as text and (small programs) as file; answers: at every invocation of the scripted command k one of 18 results (Continue with/without value, Continue after removing the registered on_error command / registering one where there is none, Continue after registering / removing the command `nope` that other lines use, GoTo label :a/:b/undefined, GoTo line 0/n/n+5, Error with plain message / message containing ${x}, Crash, Exit none/0/3/-1/abc), explored with a bounded number of deviations from the default answer within a horizon of choice points. Every execution of the real runner is compared with the abstract machine run on the same answers: sequence of invocations with bound arguments and the `line` each command sees, on_error arguments (message, 1-based line, source), final variables, success or failure with source line and file. Scale cases: programs of 300/3000 (thorough 100000) lines with a far forward jump by label over unknown commands, a jump past the end, far backward jumps by label and by line, errors on the first and last line. evaluations = programs x configurations; transitions = executions; states = distinct (calls, outcome, deviations) classes";
+pub const RULE: &str = "programs: every sequence of 1..n lines over 14 line forms (`x =` and `:a x =`, and label none/:a/:b x {no command, `k p ${x}`, `x = k p ${x}`, unknown command `nope p`}), duplicates of labels included; configurations: on_error command absent / continuing / exiting / crashing, script as text and (small programs) as file; answers: at every invocation of the scripted command k one of 18 results (Continue with/without value, Continue after removing the registered on_error command / registering one where there is none, Continue after registering / removing the command `nope` that other lines use, GoTo label :a/:b/undefined, GoTo line 0/n/n+5, Error with plain message / message containing ${x}, Crash, Exit none/0/3/-1/abc), explored with a bounded number of deviations from the default answer within a horizon of choice points. Every execution of the real runner is compared with the abstract machine run on the same answers: sequence of invocations with bound arguments and the `line` each command sees, on_error arguments (message, 1-based line, source) and the value the handler finds in the output variable when it runs, final variables, success or failure with source line and file. Scale cases: programs of 300/3000 (thorough 100000) lines with a far forward jump by label over unknown commands, a jump past the end, far backward jumps by label and by line, errors on the first and last line. evaluations = programs x configurations; transitions = executions; states = distinct (calls, outcome, deviations) classes";
 pub const ASSUMPTIONS: &[&str] = &["a line with an output variable and no command (`x =`) is a continue result without a value: that is what the public run_instruction returns for it, so the variable is deleted", "error messages are compared only through the on_error arguments; failures are compared by line and source file"];
 pub const EXHAUSTIVE: bool = true;
 pub const WALL_CAP_S: (u64, u64) = (55, 1500);
